@@ -209,6 +209,34 @@ def border_oracle(H: list, tmp: Path, tag: str) -> list:
     return fails
 
 
+def write_oracle(H: list, writes: list, tmp: Path, tag: str) -> list:
+    """Writing values into cells must not change any border (implementation only; cell writes are not modelled)."""
+    from numbers_parser import RGB, Border, Document
+    S = strokes_only(H)
+    want = lww_reference(S)
+    try:
+        doc, t = new_table()
+        objs = {}
+        for _, side, r, c, ln, oi, (w, col, pat) in S:
+            if oi not in objs:
+                objs[oi] = Border(float(w), RGB(*col), pat)
+            t.set_cell_border(r, c, side, objs[oi], ln)
+        for r, c, v in writes:
+            t.write(r, c, v)
+        mem = snapshot(t)
+        p = tmp / f"{tag}_w.numbers"
+        doc.save(p)
+        rel = snapshot(Document(p).sheets[0].tables[0])
+    except Exception as e:  # noqa: BLE001
+        return [("border-history-raises", f"{type(e).__name__}: {e}")]
+    fails = []
+    if mem != want:
+        fails.append(("border-lost-on-write", f"open document after writing {len(writes)} cell value(s): " + first_diff(mem, want) + " (last writer)"))
+    if rel != want:
+        fails.append(("reload-not-last-writer-wins", "after writes, save and reopen: " + first_diff(rel, want)))
+    return fails
+
+
 # ---------------------------------------------------------------- borders: generator
 def gen_border_history(rng, n_strokes=None, nr=NR, nc=NC):
     H = []
@@ -355,12 +383,22 @@ def run(ctx: Ctx) -> int:
     for i, H in enumerate(BORDER_CORPUS):
         ctx.dist("borders:corpus")
         border_case(ctx, exe, H, f"bc{i}")
-    for i in range(70 if ctx.quick else 1200):
+    for i in range(70 if ctx.quick else 800):
         H = gen_border_history(rng)
         ctx.dist("borders:histories")
         ctx.dist("borders:strokes", sum(1 for op in H if op[0] == "s"))
         ctx.dist("borders:reopens", sum(1 for op in H if op[0] == "O"))
         border_case(ctx, exe, H, f"b{i}")
+
+    # ---- A2. cell writes after strokes keep the borders (implementation only)
+    for i in range(12 if ctx.quick else 150):
+        H = gen_border_history(rng, n_strokes=rng.randrange(1, 6))
+        writes = [[rng.randrange(NR), rng.randrange(NC), rng.choice(["x", 1.5, True])] for _ in range(rng.randrange(1, 6))]
+        for op in strokes_only(H)[:2]:
+            writes.append([op[2], op[3], "on-a-stroked-cell"])
+        ctx.count("oracle-writes-keep-borders")
+        for sig, detail in write_oracle(H, writes, ctx.tmp, f"w{i}"):
+            ctx.oracle_fail(sig, {"kind": "borders-writes", "history": H, "writes": writes}, detail)
 
     # ---- B. styles
     from . import c15_styles
@@ -400,9 +438,11 @@ def replay(path: str) -> int:
         with tempfile.TemporaryDirectory() as td:
             if case.get("kind") == "borders":
                 fails = border_oracle(case["history"], Path(td), "replay")
+            elif case.get("kind") == "borders-writes":
+                fails = write_oracle(case["history"], case["writes"], Path(td), "replay")
             else:
                 from . import c15_styles
-                fails = c15_styles.style_oracle(case, Path(td), "replay")
+                fails = c15_styles.replay_case(case, Path(td))
         if fails:
             for sig, detail in fails[:5]:
                 print(f"replay: still failing [{sig}]: {detail}")
